@@ -290,11 +290,14 @@ Proof. exact (@source_save_indexed_eq). Qed.
 Theorem C06_source_save_pcfg_data_is_model :
   forall (O : numops) (repr : num O -> str) (encb : str -> N -> bool) (nmul : num O -> num O -> num O) (ud : str * num O)
          (base : path) (P : pcounters) (sens : bool) (cov : num O) (n : N) (enc : str) (fs : fsys),
-  fs_wf fs -> ruleset_encodable repr encb enc (save_pcfg_data O P sens cov n) = true ->
-  py_save_pcfg_data repr encb (py_calculate_probabilities nmul ud) base
-    (parser_of O P (with_markov cov n (of_counts (sc_base (pc_structs P))))) enc sens fs =
-  (Ok true, install_all repr base (save_pcfg_data O P sens cov n) fs).
-Proof. exact (@source_save_pcfg_data_eq). Qed.
+  fs_wf fs ->
+  let pp := parser_of O P (with_markov cov n (of_counts (sc_base (pc_structs P)))) in
+  (ruleset_encodable repr encb enc (save_pcfg_data O P sens cov n) = true ->
+   py_save_pcfg_data repr encb (py_calculate_probabilities nmul ud) base pp enc sens fs =
+   (Ok true, install_all repr base (save_pcfg_data O P sens cov n) fs)) /\
+  (ruleset_encodable repr encb enc (save_pcfg_data O P sens cov n) = false ->
+   exists fs', py_save_pcfg_data repr encb (py_calculate_probabilities nmul ud) base pp enc sens fs = (Ok false, fs')).
+Proof. exact (@source_save_pcfg_data_cases). Qed.
 
 (* C06_each_once_sorted for the file the translated writer leaves on disk *)
 Theorem C06_source_file_each_once_sorted : forall (repr : num QNum -> str) (encb : str -> N -> bool)
